@@ -65,11 +65,12 @@ impl ByteCompiler<'_> {
                     if post {
                         // Save old value to dst (post-increment returns old value).
                         compiler.bytecode.emit_move(dst.variable(), local_op);
-                        // Increment in-place.
+                        // Increment from the copy: `Inc`/`Dec` write `ToNumeric(old)` back to
+                        // their source, which is the value a postfix update must return.
                         if increment {
-                            compiler.bytecode.emit_inc(local_op, local_op);
+                            compiler.bytecode.emit_inc(local_op, dst.variable());
                         } else {
-                            compiler.bytecode.emit_dec(local_op, local_op);
+                            compiler.bytecode.emit_dec(local_op, dst.variable());
                         }
                     } else {
                         if increment {
